@@ -1,6 +1,7 @@
 package p05
 
 import (
+	"context"
 	"errors"
 	"fmt"
 	"io"
@@ -468,7 +469,9 @@ func execDbf(args []string) string {
 		}
 		drv = filepath.Join(vd, "lean/.lake/build/bin/drv_c05")
 	}
-	cmd := exec.Command(drv)
+	ctx, cancel := context.WithTimeout(context.Background(), 60*time.Second)
+	defer cancel()
+	cmd := exec.CommandContext(ctx, drv)
 	cmd.Stdin = strings.NewReader(line + "\n")
 	out, err := cmd.Output()
 	if err != nil {
